@@ -77,7 +77,7 @@ def build_harness(sc, race=False):
     bdir = sc.path("hbuild" + ("-race" if race else ""))
     shutil.copytree(src, bdir)
     with open(os.path.join(bdir, "go.mod"), "w") as f:
-        f.write("module verifharness\n\ngo 1.17\n\nrequire github.com/corazawaf/libinjection-go v0.0.0\n\n"
+        f.write("module verifharness\n\ngo 1.21\n\nrequire github.com/corazawaf/libinjection-go v0.0.0\n\n"
                 "replace github.com/corazawaf/libinjection-go => %s\n" % REPO)
     out = sc.path("vh" + ("-race" if race else ""))
     cmd = ["go", "build", "-tags", "verif"] + (["-race"] if race else []) + ["-o", out, "."]
